@@ -102,6 +102,36 @@ def h_mutate(ctx: Ctx, cfg):
         ctx.require(diff <= 1, "mutation:more-than-one-gene-changed", lambda: {"changed": diff})
 
 
+def h_mutate_after_crossover(ctx: Ctx, cfg):
+    """genotypes reachable by create -> map -> crossover -> map: point mutation still changes at
+    most one gene and keeps the shape (parents that read different sets of keys included)"""
+    fx, g = synth.make_grammar(ctx, cfg)
+    r = FreshRandom(ctx)
+    rep = synth.make_rep(cfg, g, r)
+    try:
+        p1, p2 = _dna_ready(ctx, cfg, rep, r), _dna_ready(ctx, cfg, rep, r)
+    except synth.LIBRARY_ERRORS:
+        return
+    children = rep.crossover(r, p1, p2)
+    for c in children:
+        try:
+            rep.genotype_to_phenotype(c)
+        except synth.LIBRARY_ERRORS:
+            pass
+        before = {k: list(v) for k, v in c.dna.items()}
+        ids = [id(v) for v in c.dna.values()]
+        ctx.require(len(set(ids)) == len(ids), "crossover:child-keys-share-one-gene-list", lambda: {"keys": [str(k) for k in c.dna]})
+        m = rep.mutate(r, c)
+        ctx.reached()
+        ctx.require(list(map(str, m.dna)) == list(map(str, before)), "mutation:key-set-changed")
+        diff = 0
+        for k in before:
+            ctx.require(len(m.dna[k]) == len(before[k]), "mutation:gene-list-length-changed", lambda: {"key": str(k)})
+            diff += sum(1 for a, b in zip(m.dna[k], before[k]) if not same_value(a, b) and a != b)
+            ctx.require(all(same_value(a, b) for a, b in zip(c.dna[k], before[k])) and len(c.dna[k]) == len(before[k]), "mutation:modifies-its-argument", lambda: {"key": str(k)})
+        ctx.require(diff <= 1, "mutation:more-than-one-gene-changed", lambda: {"changed": diff, "keys": [str(k) for k in before]})
+
+
 def h_steps(ctx: Ctx, cfg):
     """GenericCrossoverStep / GenericMutationStep produce offspring related to the individuals
     they were given by the representation's operator relation (or pass them through)"""
@@ -136,7 +166,7 @@ def h_steps(ctx: Ctx, cfg):
             ctx.require(diff <= 1 and len(o.genotype.dna) == len(i.genotype.dna), "step:mutation-offspring-not-local", lambda: {"changed": diff})
 
 
-HARNESSES = {"crossover": h_crossover, "mutate": h_mutate, "steps": h_steps}
+HARNESSES = {"crossover": h_crossover, "mutate": h_mutate, "steps": h_steps, "mutate_after_crossover": h_mutate_after_crossover}
 
 
 def obligations(tier: str):
@@ -158,6 +188,9 @@ def obligations(tier: str):
         fxn = "fmin" if rep == "sge" and not T else "f0"
         add("crossover", f"{rep}_crossover", fixture=fxn, rep=rep, decider="grow", max_depth=2 if rep == "sge" else 3, gene_length=3 if T else 2, timeout=200)
         add("mutate", f"{rep}_mutate", fixture=fxn, rep=rep, decider="grow", max_depth=2 if rep == "sge" else 3, gene_length=3 if T else 2, timeout=200)
+    add("mutate_after_crossover", "dsge_mutate_after_crossover_f3b", fixture="f3b", rep="dsge", max_depth=2, timeout=200)
+    add("mutate_after_crossover", "dsge_mutate_after_crossover_f0", fixture="f0", rep="dsge", max_depth=3, timeout=200)
+    add("mutate_after_crossover", "sge_mutate_after_crossover_fmin", fixture="fmin", rep="sge", decider="grow", max_depth=2, gene_length=2, timeout=200)
     for step in ("crossover", "mutation"):
         add("steps", f"step_{step}_ge", fixture="f0", rep="ge", decider="grow", max_depth=2, gene_length=3, step=step, n=3 if T else 2)
     return obs
